@@ -251,6 +251,11 @@ func (vc *VC) finish(ex *Exec) {
 	mkEval := func() *Eval {
 		ev := ex.newEval(st, ex.entry)
 		ex.bindParams(ev)
+		if len(ex.rets) == 1 && ex.rets[0].block != nil {
+			// a single return: Go locals can be named in ensures / exit-ghost clauses, with their values there
+			ev.point = &progPoint{block: ex.rets[0].block, idx: len(ex.rets[0].block.Instrs) - 1}
+			ev.exitCtx = true
+		}
 		for k, r := range results {
 			nm := vc.fn.Signature.Results().At(k).Name()
 			if nm != "" && nm != "_" {
